@@ -35,6 +35,7 @@ type scheduler struct {
 	preempt  int         // remaining preemptive switches
 	mapOrder int         // remaining map range statements whose start is a symbolic choice
 	lockPoints bool      // Lock/RLock calls of /repo code are scheduling points
+	txnPoints  bool      // Badger transaction starts of /repo code are scheduling points
 	switches int
 }
 
